@@ -39,6 +39,7 @@ type SpecEnv struct {
 	Vars  map[string]SV
 	Cur   HeapView
 	Old   HeapView
+	LoopPre HeapView // loop clauses: the state in which the loop was entered (before the havoc), for loopentry(e)
 	Next0 string // allocation counter at function entry (for fresh())
 	Fuel  string // fuel term passed to recursive spec functions (inside their own definitions)
 	DcsOf types.Type // set while the body of the generated dcs_<T> is being evaluated
@@ -719,6 +720,16 @@ func (e *SpecEnv) evalCall(x SCall) SV {
 		ne.Cur = e.Old
 		v := ne.Eval(x.Args[0])
 		return v
+	case "loopentry":
+		// loopentry(e): e evaluated on the heap with which the loop was entered. Like old(), it gives recursive spec
+		// functions over data the loop does not write a heap term that never changes, so facts about them survive
+		// the loop's own writes (to other memory) without induction; a frame invariant links it to the current heap.
+		if e.LoopPre == nil {
+			e.fail("loopentry() is available in loop clauses only")
+		}
+		ne := e.clone()
+		ne.Cur = e.LoopPre
+		return ne.Eval(x.Args[0])
 	case "len":
 		v := arg(0)
 		switch v.Typ.Underlying().(type) {
